@@ -266,6 +266,21 @@ where
         )
     }
 
+    /// A histogram object holding the given counts (index 0 = multiplicity 1), ready to be fitted
+    pub fn verif_from_counts(k: usize, rc: bool, counts: Vec<u32>) -> Self {
+        Self {
+            k,
+            rc,
+            kmer_dict: HashMap::default(),
+            counts,
+            w0: INIT_W0,
+            c: INIT_C,
+            cutoff: 0,
+            verbose: false,
+            fitted: false,
+        }
+    }
+
     /// Multiplicity of every distinct split k-mer counted from the reads
     pub fn verif_kmer_counts(&self) -> Vec<(IntT, u32)> {
         self.kmer_dict.iter().map(|(k, v)| (*k, *v)).collect()
